@@ -762,6 +762,37 @@ Example iter_exact_when_even :
 Proof. vm_compute. reflexivity. Qed.
 
 (* ------------------------------------------------------------------------------------ *)
+(* Part E: why the torn-write finding (D13) cannot be repaired by recovery alone           *)
+(* ------------------------------------------------------------------------------------ *)
+(* Two runs: A commits the transaction {a, b}; B commits {a, b, c} and its final log write
+   is torn after two entries. Both commits are acknowledged before the stop. What is on disk
+   is IDENTICAL (same log entries, same sequence number, same tables), so whatever recovery
+   computes from the disk, it computes the same for both: keeping {a, b} is required for A
+   (an acknowledged transaction) and is a strict subset for B; dropping it loses A. Telling
+   them apart needs information that the log format does not carry (an entry count or a
+   commit marker written with the batch). *)
+Theorem torn_needs_commit_marker : exists c opsA opsB n txA txB extra,
+  acked (init c) opsA = [WBatch txA] /\ acked (init c) opsB = [WBatch txB] /\
+  txB = txA ++ [extra] /\
+  lost_log (run c opsA) = false /\ lost_log (run c opsB) = false /\
+  crash_torn (run c opsB) n = crash (run c opsA) (wal_next (run c opsA)) /\
+  forall rec : st -> st, rec (crash_torn (run c opsB) n) = rec (crash (run c opsA) (wal_next (run c opsA))).
+Proof.
+  exists (mkCfg 4096 10),
+         [OCommit [([97], Some [1]); ([98], Some [1])]],
+         [OCommit [([97], Some [1]); ([98], Some [1]); ([99], Some [1])]],
+         2%nat, [([97], Some [1]); ([98], Some [1])],
+         [([97], Some [1]); ([98], Some [1]); ([99], Some [1])], ([99], Some [1]).
+  assert (E : crash_torn (run (mkCfg 4096 10) [OCommit [([97], Some [1]); ([98], Some [1]); ([99], Some [1])]]) 2
+            = crash (run (mkCfg 4096 10) [OCommit [([97], Some [1]); ([98], Some [1])]])
+                    (wal_next (run (mkCfg 4096 10) [OCommit [([97], Some [1]); ([98], Some [1])]]))).
+  { vm_compute. reflexivity. }
+  split; [vm_compute; reflexivity|]. split; [vm_compute; reflexivity|].
+  split; [reflexivity|]. split; [vm_compute; reflexivity|]. split; [vm_compute; reflexivity|].
+  split; [exact E|]. intros rec. rewrite E. reflexivity.
+Qed.
+
+(* ------------------------------------------------------------------------------------ *)
 (* Part D: the critical sections, from the Go source (coq/gen/TxnLocks.v)                  *)
 (* ------------------------------------------------------------------------------------ *)
 From Coq Require Import String.
@@ -877,3 +908,4 @@ Example locks_reject_insert_first :
   Locks.before "currentWAL.AppendBatch" "m.memTablePool.Put"
     ["m.mu.Lock"; "defer m.mu.Unlock"; "m.memTablePool.Put"; "currentWAL.AppendBatch"] = false.
 Proof. vm_compute. reflexivity. Qed.
+
